@@ -23,15 +23,20 @@ Record DefStruct (s0 : state) (d : id) (sF : state) (d' : id) (M : memo) : Prop 
   ds_ref : forall x x', img M x x' -> kind_of s0 x = Some KInstance -> iref sF x' = iref s0 x;
   ds_ipwire : forall i i', img M i i' -> kind_of s0 i = Some KPin -> mwire M (ipwire s0 i) = Some (ipwire sF i');
   ds_ipins : forall x x', img M x x' -> kind_of s0 x = Some KInstance -> map_opt (imap M) (ipins s0 x) = Some (ipins sF x');
-  ds_wpins : forall w w', img M w w' -> kind_of s0 w = Some KWire -> map_opt (mpin s0 M) (wpins s0 w) = Some (wpins sF w')
+  ds_wpins : forall w w', img M w w' -> kind_of s0 w = Some KWire -> map_opt (mpin s0 M) (wpins s0 w) = Some (wpins sF w');
+  (* the memo covers objects of the definition only *)
+  ds_dom : forall a b, img M a b -> In a (def_objects s0 d)
 }.
 
-Theorem clone_definition_struct s0 d :
+(* the memo built by Definition._clone *)
+Definition clone_memo (s0 : state) (d : id) : memo := snd (fst (fst (def_clone1 (s0, []) d))).
+
+Theorem clone_definition_struct_m s0 d :
   UF s0 -> d < next s0 -> kind_of s0 d = Some KDefinition -> snd (fst (clone_definition s0 d)) = None ->
-  exists M, DefStruct s0 d (fst (fst (clone_definition s0 d))) (snd (clone_definition s0 d)) M.
+  DefStruct s0 d (fst (fst (clone_definition s0 d))) (snd (clone_definition s0 d)) (clone_memo s0 d).
 Proof.
   intros U0 Hd Hkd. pose proof U0 as [I0 [T0 [F0 [FT0 K0]]]]. pose proof (inv_a _ I0) as I1.
-  unfold clone_definition. destruct (def_clone1 (s0, []) d) as [[[G M] d'] [ex|]] eqn:E; [cbn; discriminate|].
+  unfold clone_definition, clone_memo. destruct (def_clone1 (s0, []) d) as [[[G M] d'] [ex|]] eqn:E; [cbn; discriminate|].
   destruct (ry_def_stage s0 s0 G [] M d d' U0 (ry_start s0 U0) Hd Hkd (fun y _ H => H) E) as [Y [Hd' [Hin [_ [Ky [Hks [Hn [Hpd Hf]]]]]]]].
   pose proof (ry_rx _ _ _ Y) as X. pose proof (rx_ri _ _ _ X) as R. pose proof (ri_st _ _ _ R) as T. pose proof (rx_ex _ _ _ X) as EXG.
   pose proof (rx_di _ _ _ X d d' Hin Hkd) as DI.
@@ -53,7 +58,7 @@ Proof.
   { intros a b H Hk. destruct (st_rng _ _ _ T a b H) as [_ [Hb0 _]].
     destruct (so_inst _ _ _ _ _ _ SO a b H Hb0 Hk) as [_ Hir]. split; [exact Hir|].
     unfold rk. rewrite Hir. destruct (iref s0 a) as [e|] eqn:Er0; [|reflexivity]. apply Nat.leb_gt. apply (ref_lt s0 a e K0 F0 Er0). }
-  exists M. constructor.
+  cbn [fst snd]. constructor.
   - apply (st_fun _ _ _ T).
   - apply (st_inj _ _ _ T).
   - intros a b H. destruct (st_rng _ _ _ T a b H) as [A [B _]]. split; [exact A|]. split; [exact B|]. rewrite Ekd. apply (st_kind _ _ _ T a b H).
@@ -87,7 +92,13 @@ Proof.
     destruct (mget M x) as [x'|] eqn:Ex; [|reflexivity]. destruct (assoc i (ipins s0 x)) as [ow|] eqn:Eo; [|reflexivity].
     assert (Hkx : kind_of s0 x = Some KInstance) by (apply (ft_i _ FT0); intro E0; rewrite E0 in Eo; discriminate).
     rewrite (proj2 (Hflag x x' (mget_in _ _ _ Ex) Hkx)). reflexivity.
+  - exact Hobj.
 Qed.
+
+Theorem clone_definition_struct s0 d :
+  UF s0 -> d < next s0 -> kind_of s0 d = Some KDefinition -> snd (fst (clone_definition s0 d)) = None ->
+  exists M, DefStruct s0 d (fst (fst (clone_definition s0 d))) (snd (clone_definition s0 d)) M.
+Proof. intros U Hd Hk Hc. exists (clone_memo s0 d). apply clone_definition_struct_m; assumption. Qed.
 
 Theorem clone_definition_reachable_struct ops d :
   let s := run ops init in
